@@ -1471,6 +1471,7 @@ def _text_sig(s: str) -> str:
 def _run_chunk(arg):
     import resource
     import signal
+    import time
 
     kind, items = arg
     P = Part()
@@ -1491,6 +1492,7 @@ def _run_chunk(arg):
             c = DerivCase(**it)
         else:
             c = StringCase(**it)
+        t0 = time.process_time()
         try:
             signal.setitimer(signal.ITIMER_REAL, 30)
             c.prepare(P)
@@ -1501,6 +1503,7 @@ def _run_chunk(arg):
                 P.count("skipped=" + type(e).__name__)
             c.reqs = []
             c.skip_all = True
+        P.count("cpu_ms_real_code+oracle:" + it.get("src", kind), int(1000 * (time.process_time() - t0)))
         cases.append(c)
     signal.setitimer(signal.ITIMER_REAL, 0)
     reqs = [r for c in cases for r in c.reqs]
@@ -1516,6 +1519,7 @@ def _run_chunk(arg):
             if "err" in x:
                 P.disagree("model driver error", getattr(c, "case_obj", None), x, None)
         if n and all("err" not in x for x in o):
+            t0 = time.process_time()
             try:
                 signal.setitimer(signal.ITIMER_REAL, 60)
                 c.finish(P, o)
@@ -1523,6 +1527,7 @@ def _run_chunk(arg):
                 P.count("skipped_in_compare=" + type(e).__name__)
             finally:
                 signal.setitimer(signal.ITIMER_REAL, 0)
+                P.count("cpu_ms_compare:" + getattr(c, "src", kind), int(1000 * (time.process_time() - t0)))
     return P
 
 
@@ -1567,6 +1572,9 @@ ALLSYMS = SYMS + IDENTS
 
 
 def run(ctx: Ctx) -> None:
+    import onnx_ir  # noqa: F401  (imported before the worker processes fork)
+    import sympy  # noqa: F401
+
     rng = ctx.rng
     ctx.rule = (
         "a tree case = (expression tree, bindings); non-trivial when the tree has >= 1 operator; a string case = one "
@@ -1600,6 +1608,36 @@ def run(ctx: Ctx) -> None:
     envs16 = [{"N": a, "M": b} for a in range(1, 5) for b in range(1, 5)]
     for t in ex:
         tree_items.append(dict(tree=t, envs=envs16, splits=[({"N": 2}, {"M": 3})], simplify=False, shape=False, src="exhaustive", light=True))
+    # ---- identity / unit / small constants on either side of every operator, over operands that are
+    #      fractional, negative, or print with ** (shortcuts for "x // 1", "x * 0", ... live here)
+    operands = [
+        ("s", "N"),
+        ("b", "div", ("s", "N"), ("n", 2)),
+        ("b", "div", ("b", "sub", ("s", "N"), ("s", "M")), ("n", 3)),
+        ("b", "div", ("s", "N"), ("s", "M")),
+        ("u", "neg", ("b", "div", ("s", "N"), ("n", 2))),
+        ("b", "mul", ("s", "N"), ("s", "N")),
+        ("b", "mul", ("b", "mul", ("s", "N"), ("s", "N")), ("s", "M")),
+        ("b", "sub", ("s", "M"), ("b", "mul", ("s", "N"), ("s", "N"))),
+        ("b", "fdiv", ("s", "N"), ("s", "M")),
+        ("b", "mod", ("s", "N"), ("s", "M")),
+    ]
+    edge_envs = [{"N": 7, "M": 2}, {"N": 3, "M": 5}, {"N": 1, "M": 1}, {"N": 4, "M": 4}]
+    nedge = 0
+    for x in operands:
+        for op in BIN:
+            for c in (-1, 0, 1, 2, 3, 4):
+                for tree in (("b", op, x, ("n", c)), ("b", op, ("n", c), x)):
+                    tree_items.append(dict(tree=tree, envs=edge_envs, splits=[({"N": 7}, {"M": 2})], simplify=False, shape=False, src="edge", light=True))
+                    nedge += 1
+        for op in UN:
+            tree_items.append(dict(tree=("u", op, x), envs=edge_envs, splits=[({"M": 2}, {"N": 7})], simplify=False, shape=False, src="edge", light=True))
+            nedge += 1
+    ctx.exhaustive_scopes.append(
+        f"{nedge} edge trees: every binary operator with each constant -1, 0, 1, 2, 3, 4 on either side of {len(operands)} "
+        "fractional / negative / power-printing operands, every unary operator on them"
+    )
+    nsimp = 0
     # ---- random deep trees
     for i in range(ctx.pick(300, 4000)):
         depth = rng.choice([2, 3, 3, 4, 4, 5, 6])
@@ -1608,20 +1646,35 @@ def run(ctx: Ctx) -> None:
         syms = tree_syms(t)
         envs = make_envs(rng, syms, 3) + [{s: 1 for s in syms}]
         splits = make_splits(rng, envs[0], 2)
-        tree_items.append(dict(tree=t, envs=envs, splits=splits, simplify=(tree_size(t) <= 14 and i % 3 == 0), shape=(i % 5 == 0), src="random"))
+        simp = tree_size(t) <= (10 if ctx.quick else 14) and i % 3 == 0 and nsimp < ctx.pick(60, 1500)
+        nsimp += simp
+        tree_items.append(dict(tree=t, envs=envs, splits=splits, simplify=simp, shape=(i % 5 == 0), src="random"))
     # ---- strings: grammar-directed + malformed
     for s in FIXED_MALFORMED:
         str_items.append(dict(s=s, envs=_string_envs(rng, s), src="fixed"))
     deriv_items = []
-    for i in range(ctx.pick(2000, 30000)):
-        d = gen_deriv(rng, rng.choice([1, 2, 2, 3, 4]))
+    sdepths = [1, 1, 2, 2, 3] if ctx.quick else [1, 2, 2, 3, 4]
+    max_tokens = ctx.pick(120, 400)  # SymPy's Max/Min/Mod construction is the cost of a long sentence
+
+    def bounded_deriv():
+        for _ in range(8):
+            d = gen_deriv(rng, rng.choice(sdepths))
+            if len(flatten_deriv(d)) <= max_tokens:
+                return d
+        return gen_deriv(rng, 1)
+
+    for i in range(ctx.pick(1200, 30000)):
+        d = bounded_deriv()
         toks = flatten_deriv(d)
         s = render_tokens(rng, toks, rng.choice([0, 1, 2]))
         envs = _string_envs(rng, s)
         str_items.append(dict(s=s, envs=envs, src="grammar"))
-        deriv_items.append(dict(d=d, envs=envs, src="derivation"))
-    for i in range(ctx.pick(2000, 30000)):
-        s = gen_malformed(rng, rng.choice([0, 1, 2, 3]))
+        if i % 2 == 0:
+            deriv_items.append(dict(d=d, envs=envs, src="derivation"))
+    for i in range(ctx.pick(1500, 30000)):
+        s = gen_malformed(rng, rng.choice([0, 1, 2, 2] if ctx.quick else [0, 1, 2, 3]))
+        if len(s) > 6 * max_tokens:
+            continue
         str_items.append(dict(s=s, envs=_string_envs(rng, s), src="malformed"))
     ctx.count("corpus_cases", ncorpus)
     rng.shuffle(tree_items)
